@@ -199,6 +199,13 @@ class SyncIter(Iterable):
         if self._stopped is None:
             return
         self._stopped.set()
+        # The worker may be blocked in `put` on the full queue.
+        # Keep draining until it has noticed the flag and exited.
+        while self._worker_thread.is_alive():
+            try:
+                self._q.get(timeout=0.01)
+            except queue.Empty:
+                pass
         self._worker_thread.join()
         self._stopped = None
 
